@@ -48,6 +48,7 @@ class Contract:
     note: str = ""
     defaults: dict = field(default_factory=dict)    # param name -> default concrete value
     ensure_hints: dict = field(default_factory=dict)  # ensures label -> (hint fns)
+    raise_ensures: list = field(default_factory=list)  # [(label, fn(cx, exc_name, **params))] checked on every raising path
 
     def require(self, label, fn):
         self.requires.append((label, fn))
@@ -59,6 +60,10 @@ class Contract:
         self.ensures.append((label, fn))
         if hints:
             self.ensure_hints[label] = tuple(hints)
+        return self
+
+    def ensure_on_raise(self, label, fn):
+        self.raise_ensures.append((label, fn))
         return self
 
     def may_raise(self, exc, when=None, exact=True, label=""):
